@@ -19,7 +19,8 @@ class FakeBar:
 
 
 def read_frame(out, n_expected_rows):
-    """Frame -> names, per-column cell lists (by position), index regularity, number of non-str cells."""
+    """Frame -> names, per-column cell lists (by position), whether the row labels are the input's (n_expected_rows =
+    the input's index labels, in order), number of non-str cells."""
     names = [str(c) for c in out.columns]
     cols = []
     nonstr = 0
@@ -33,21 +34,50 @@ def read_frame(out, n_expected_rows):
                 nonstr += 1
                 cells.append("<%s:%r>" % (type(v).__name__, v))
         cols.append(cells)
-    index_ok = list(out.index) == list(range(len(out.index)))
+    index_ok = list(out.index) == list(n_expected_rows)
     return {"names": names, "cols": cols, "index_ok": bool(index_ok), "nrows": int(out.shape[0]), "nonstr": nonstr}
+
+
+def digest_exact(case, o):
+    """informational only (never decides anything): how many new columns are, cell for cell,
+    xxh64(utf8(enc(tuple))).hexdigest() for the model's enc = str(len(v)) + ':' + v per constituent"""
+    import itertools
+    import xxhash
+    try:
+        feats = [n for n in case["names"] if n != case["label"]]
+        k = 2 if case.get("is3mr") else case["order"]
+        sep = " AND_REL " if case.get("is3mr") else " AND "
+        cand = {sep.join(c): c for c in itertools.combinations(feats, k)}
+        nd = len(case["names"])
+        good = 0
+        for nm, col in zip(o["names"][nd:], o["cols"][nd:]):
+            comb = cand.get(nm)
+            if comb is None:
+                continue
+            pos = [case["names"].index(f) for f in comb]
+            exp = [xxhash.xxh64("".join("%d:%s" % (len(row[p]), row[p]) for p in pos).encode("utf-8")).hexdigest()
+                   for row in case["rows"]]
+            good += 1 if exp == col else 0
+        return [good, len(o["names"]) - nd]
+    except Exception:
+        return None
 
 
 out = []
 for case in payload["cases"]:
     cr.GLOBAL_PRIOR_COMB_COUNTS.clear()
     try:
-        df = pd.DataFrame(case["rows"], columns=case["names"])
+        # default: the RangeIndex compute_batch_ranking builds; "index": a frame that was filtered / shuffled / re-labelled
+        index = case.get("index")
+        df = pd.DataFrame(case["rows"], columns=case["names"], index=index)
+        labels = list(df.index)
         args = types.SimpleNamespace(
             label_column=case["label"], interaction_order=case["order"], combination_number_upper_bound=case["cap"],
             reference_model_JSON="", heuristic="MI-numba-randomized")
         res = cr.compute_combined_features(df, args, FakeBar(), bool(case.get("is3mr", False)))
-        o = read_frame(res, len(case["rows"]))
+        o = read_frame(res, labels)
         o["ok"] = True
+        o["digest_exact"] = digest_exact(case, o)
         o["counter"] = sorted([list(k), int(v)] for k, v in cr.GLOBAL_PRIOR_COMB_COUNTS.items())
         out.append(o)
     except Exception as e:  # recorded outcome, decided by the harness
